@@ -1,4 +1,18 @@
 TEXTS = {
+    "C03": {
+        "text": "Machine-checked Lean 4 theorem C03_holds (no wiring hypothesis): the C03 monitor state is a function "
+                "of the model's loop phase, so every run of the actor model (plain and stream-attached loops, all "
+                "restart strategies, every termination cause, anything still queued) yields a callback sequence in "
+                "the regular language started (handle|item)* [finished] stopped, repeated per processed restart, "
+                "truncated by failures, with nothing afterwards and no handler after a failed started. The model's "
+                "phase machine is tied to environment.rs / restart_strategy.rs by acceptance of real traces over "
+                "termination cause x mailbox kind x strategy x plain/stream.",
+        "design_ref": "DESIGN.md §5 C03",
+        "note": "Partial: the liveness-flavoured clause (graceful end reached by quiescence, monC03q) is checked on "
+                "real traces, not proved. Trusted: Lean kernel + axioms propext/Quot.sound; hand-written phase "
+                "machine validated by trace acceptance; harness callback logging (drop guards).",
+        "technique": "Lean 4 proof (phase/monitor simulation by exhaustive step case analysis) + checked trace correspondence",
+    },
     "C15": {
         "text": "Machine-checked Lean 4 theorem C15_holds: for every wiring in which every strong handle kind "
                 "(Addr, OwningAddr, Sender, Caller) owns both halves of the channel, every run of the actor model "
@@ -49,6 +63,6 @@ TEXTS = {
 _PENDING = "check under construction in this round: model + theorem not yet wired into ./check (see DESIGN.md build order); not claimed until its three obligations run end to end"
 NOT_APPLICABLE = [
     {"property_id": p, "reason": _PENDING}
-    for p in ["C01", "C02", "C03", "C04", "C05", "C06", "C07", "C08", "C09", "C10", "C11", "C13",
+    for p in ["C01", "C02", "C04", "C05", "C06", "C07", "C08", "C09", "C10", "C11", "C13",
               "C16", "C17", "C18", "C19"]
 ]
